@@ -19,6 +19,7 @@ CheckAgree  == IOEnv.VERIF_CHECK_AGREE = "1"     \* all configurations return id
 CheckNoPanic == IOEnv.VERIF_CHECK_NOPANIC = "1"  \* outcome is a value (C04)
 CheckAllocs == IOEnv.VERIF_CHECK_ALLOCS = "1"    \* allocs = 0 in configurations without alloc (C15)
 CheckExpect == IOEnv.VERIF_CHECK_EXPECT = "1"    \* record carries "expect" bits that must be returned (C03)
+CheckGarbage == IOEnv.VERIF_CHECK_GARBAGE = "1"  \* arbitrary bytes: outcome must be value or clean panic (C08)
 CheckModel  == IOEnv.VERIF_CHECK_MODEL = "1"     \* run the algorithm model (MinLex) next to the implementation
 
 VARIABLES i, pc, verdict, trail, ml
@@ -48,7 +49,28 @@ Stop(v, tag)    == pc' = "report" /\ verdict' = v /\ trail' = Append(trail, tag)
 
 Validate ==
   /\ pc = "start"
-  /\ IF ValidInput(Recs[i]) THEN Go("valid", "valid") ELSE Stop("input_invalid", "not a valid input")
+  /\ IF CheckGarbage THEN Go("garbage", IF ValidInput(Recs[i]) THEN "bytes:valid" ELSE "bytes:garbage")
+     ELSE IF ValidInput(Recs[i]) THEN Go("valid", "valid") ELSE Stop("input_invalid", "not a valid input")
+
+(* C08.  Permitted outcomes for arbitrary bytes are {value, panic}; anything  *)
+(* else (an abort, a sanitizer report, a Miri error) never reaches a record   *)
+(* and is reported by the driver from the process status.  The first stage of *)
+(* the model (parse_number with wrapping u8 / u64 arithmetic) is run on the   *)
+(* garbage and compared with the hook's Number (DRIFT only).                  *)
+JudgeGarbage ==
+  /\ pc = "garbage"
+  /\ LET r == Recs[i]
+         okk == \A k \in 1..Len(r.outs) : r.outs[k].kind \in {"value", "panic"}
+         n == ParseNumber(r.int, r.frac, r.exp)
+         drift == \E k \in 1..Len(r.outs) :
+                    /\ r.outs[k].path \notin {"unknown", "panic"}
+                    /\ (r.outs[k].num.mant # n.mant \/ r.outs[k].num.exp # n.exp \/ r.outs[k].num.many # n.many)
+         note == [lemire |-> n.tr \o (IF n.panic THEN <<"PN_CheckedPanic">> ELSE <<>>), bellerophon |-> <<>>, dbg |-> FALSE, limbs |-> 0, drift |-> drift]
+     IN IF okk THEN /\ pc' = "report" /\ verdict' = "ok"
+                    /\ trail' = trail \o <<IF \E k \in 1..Len(r.outs) : r.outs[k].kind = "panic" THEN "panicked cleanly" ELSE "returned", ToJson(note)>>
+                    /\ UNCHANGED <<i, ml>>
+        ELSE Stop("impl_violates", "outcome is neither a value nor a clean panic")
+
 
 JudgeOutcome ==
   /\ pc = "valid"
@@ -153,7 +175,7 @@ Finish ==
   /\ PrintT("VP|" \o ToJson([id |-> Recs[i].id, verdict |-> verdict, trail |-> trail]))
   /\ pc' = "done" /\ UNCHANGED <<i, verdict, trail, ml>>
 
-Next == Validate \/ JudgeOutcome \/ JudgeValue \/ JudgeExpect \/ JudgeAgree \/ JudgeAllocs
+Next == Validate \/ JudgeGarbage \/ JudgeOutcome \/ JudgeValue \/ JudgeExpect \/ JudgeAgree \/ JudgeAllocs
         \/ ModelStep \/ ModelCompare \/ Finish
 Spec == Init /\ [][Next]_vars
 
